@@ -74,6 +74,7 @@ class Repo:
                 self.modules[mod] = mi
         self.inlined = []
         self.expand_failed = []
+        self._canon = self._moved_definitions()
         if expand:
             from .expand import expand_repo
             self.inlined = expand_repo(self)
@@ -121,6 +122,62 @@ class Repo:
                     mi.imports.setdefault(local, f"{base}.{a.name}")
 
     # ------------------------------------------------------------------
+    def _moved_definitions(self) -> dict:
+        """id(def node) -> the qualified name it had when the checker's frozen surface was recorded, for functions / classes that were
+        moved to another module and are re-exported from the old place: the old name stays the canonical one, so that rules, tables and
+        the helper expander keep recognising the definition."""
+        out = {}
+        try:
+            from .expand import load_known
+            known = load_known()
+        except Exception:
+            return out
+        tops = set()
+        for k in known:
+            parts = k.split(".")
+            for i in range(len(parts) - 1, 0, -1):
+                if ".".join(parts[:i]) in self.modules:
+                    if len(parts) > i:
+                        tops.add(".".join(parts[: i + 1]))
+                    break
+        for k in sorted(tops):
+            mod, name = k.rsplit(".", 1)
+            mi = self.modules.get(mod)
+            if mi is None or name in mi.defs:
+                continue
+            tgt = mi.imports.get(name)
+            if not tgt or not tgt.startswith(self.PKG + "."):
+                continue
+            try:
+                m2, node = self.lookup(tgt)
+            except AnchorMissing:
+                continue
+            if isinstance(node, (ast.FunctionDef, ast.AsyncFunctionDef, ast.ClassDef)) and node.name == name:
+                out.setdefault(id(node), k)
+        return out
+
+    def module_members(self, modname: str):
+        """(name, node, defining ModuleInfo) of the functions / classes that belong to a module: its own definitions and those that were
+        moved elsewhere and are re-exported from it under the recorded name."""
+        mi = self.module(modname)
+        out = []
+        for name, node in mi.defs.items():
+            if isinstance(node, (ast.FunctionDef, ast.AsyncFunctionDef, ast.ClassDef)):
+                out.append((name, node, mi))
+        for name, tgt in mi.imports.items():
+            if name in mi.defs or not tgt.startswith(self.PKG + "."):
+                continue
+            try:
+                m2, node = self.lookup(tgt)
+            except AnchorMissing:
+                continue
+            if isinstance(node, (ast.FunctionDef, ast.AsyncFunctionDef, ast.ClassDef)) and self._canon.get(id(node)) == f"{modname}.{name}":
+                out.append((name, node, m2))
+        return out
+
+    def canonical(self, qual: str, node) -> str:
+        return self._canon.get(id(node), qual) if getattr(self, "_canon", None) else qual
+
     def module(self, name: str) -> ModuleInfo:
         if name not in self.modules:
             raise AnchorMissing(f"module {name} not found")
@@ -224,7 +281,7 @@ class Repo:
         for mi in self.modules.values():
             for name, node in mi.defs.items():
                 if isinstance(node, ast.ClassDef):
-                    q = f"{mi.name}.{name}"
+                    q = self.canonical(f"{mi.name}.{name}", node)
                     if q != cls_qual and cls_qual in self.mro(q):
                         out.append(q)
         return sorted(out)
@@ -233,7 +290,7 @@ class Repo:
     def resolve_name(self, mi: ModuleInfo, name: str) -> str | None:
         """Dotted target of a module-level name (follows imports; repo names are followed through re-exports)."""
         if name in mi.defs and not isinstance(mi.defs[name], (ast.Assign, ast.AnnAssign)):
-            return f"{mi.name}.{name}"
+            return self.canonical(f"{mi.name}.{name}", mi.defs[name])
         if name in mi.imports:
             tgt = mi.imports[name]
             if tgt.startswith(self.PKG + "."):
@@ -241,7 +298,7 @@ class Repo:
                     m2, node = self.lookup(tgt)
                     if isinstance(node, ast.Module):
                         return m2.name
-                    return f"{m2.name}.{node.name}" if hasattr(node, "name") else tgt
+                    return self.canonical(f"{m2.name}.{node.name}", node) if hasattr(node, "name") else tgt
                 except AnchorMissing:
                     return tgt
             return tgt
@@ -270,13 +327,13 @@ class Repo:
     def _walk_funcs(self, mi, node, prefix):
         for ch in getattr(node, "body", []):
             if isinstance(ch, (ast.FunctionDef, ast.AsyncFunctionDef)):
-                q = f"{prefix}.{ch.name}"
+                q = self.canonical(f"{prefix}.{ch.name}", ch)
                 ch._module = mi
                 ch._qual = q
                 yield q, ch, mi
                 yield from self._walk_nested(mi, ch, q)
             elif isinstance(ch, ast.ClassDef):
-                yield from self._walk_funcs(mi, ch, f"{prefix}.{ch.name}")
+                yield from self._walk_funcs(mi, ch, self.canonical(f"{prefix}.{ch.name}", ch))
 
     def _walk_nested(self, mi, fn, prefix):
         for n in ast.walk(fn):
